@@ -276,7 +276,16 @@ class FuncTaint:
         except Unrecognised as exc:
             chk.unrec('C12.sink', f'{self.label}: {exc.what}', self.mod.rel)
             return
-        states = forward(cfg, self.init, self.transfer, lambda a, b: a | b)
+        def refine(node, lab, st):
+            # a name known to be None on this edge is not a float
+            if node.kind == 'test' and isinstance(node.ast, ast.Compare) and len(node.ast.ops) == 1 and isinstance(node.ast.left, ast.Name) \
+                    and isinstance(node.ast.comparators[0], ast.Constant) and node.ast.comparators[0].value is None:
+                none_edge = 'true' if isinstance(node.ast.ops[0], (ast.Is, ast.Eq)) else 'false' if isinstance(node.ast.ops[0], (ast.IsNot, ast.NotEq)) else None
+                if lab == none_edge:
+                    return frozenset(x for x in st if x != node.ast.left.id and not (isinstance(x, tuple) and x and x[-1] == node.ast.left.id)) if isinstance(st, frozenset) else \
+                        type(st)(x for x in st if x != node.ast.left.id)
+            return st
+        states = forward(cfg, self.init, self.transfer, lambda a, b: a | b, edge_transfer=refine)
         for node, st in states.items():
             exprs = []
             s = node.ast
